@@ -28,6 +28,15 @@ CLAIMS = {
             "with the cursor's clause as reason; try_add_decision separates new/same/opposite. Soundness of first-UIP itself and the "
             "watch invariants under undo are not decided.",
             "DESIGN.md section 4 C02"),
+    "C03": ("dominance/loop analysis of the antecedent bookkeeping and the backward walk, exhaustive variant->edge correspondence and def-use attribution in Conflict::graph (MIR)",
+            "Decides the structural clause of C03: every clause whose literals feed a learnt clause is recorded as its antecedent in "
+            "the same iteration; the final walk records and follows the reason of every involved non-root decision (only the two "
+            "documented skips), expands learnt reasons over all their antecedents and never drops a new clause id; Conflict::graph "
+            "matches all Clause variants without wildcard, builds the edge kind of the matched variant, and fills edge payloads, "
+            "sources and targets from the clause's own fields (requires targets = all cached candidates of that requirement, none -> "
+            "unresolved node); the reachability assertion is a plain assert. A forgotten antecedent or a mis-attributed edge still "
+            "renders plausible text, which is why tests cannot see it. Truth of edges against provider data is not decided.",
+            "DESIGN.md section 4 C03"),
     "C04": ("guard-dominance rules for indexing / watch distinctness / protocol preconditions, reviewed census of reachable explicit panic sites (call-graph closure over MIR)",
             "Decides exact disciplines whose violation is a panic or a non-terminating traversal on some well-formed input: length "
             "test or resize dominates every index into the id-indexed growable tables; binary clauses get provably distinct watch "
